@@ -114,8 +114,8 @@ second of every month and year — one undecidable (a new moon 81 s from local m
 Rounds 12–15 (80 changes in four batches of twenty, written by fresh agents that were given only the property text,
 the short names of the changes already taken for it and a preferred flavour — two cooperating sites, a multi-step
 sequence on one object, an unusual input, package-level state, a less-travelled entry point, a data-table entry, a
-secondary object type, an edge of the range): 64 were caught by the quick check of their property as it stood, 4 by
-C09 (three of them concurrency-only changes labelled with another property), and 12 led to the additions listed in
+secondary object type, an edge of the range): 60 were caught as they stood — by the quick check of their property or, for
+the concurrency-only changes and two others, by C09 or C11 — and 20 led to the additions listed in
 section 0.1 ("Rounds 12–15"). What the misses had in common this time was not a dimension of the *input* space but of
 the *object's past*: the check read its answer from an object nobody had asked anything before (term table rewritten by
 `GetShuJiu`/`GetFu`, lookup memo keyed too coarsely, back-pointer surviving `NextHour`), or through one of two entry
